@@ -74,3 +74,26 @@ Definition all_valid (st : state) : bool :=
 
 (* observation after a group of events: for the listed (still referenced) objects, what a read returns *)
 Definition reads (st : state) (os : list nat) : list (option nat) := map (read st) os.
+
+(* ---- files derived from a disk-backed object ------------------------------------------------------------------
+   g = o.copy() / o.subsetVariables(..) / o.sliceDimensions(..) / o.mask(..) / ... : an in-memory file built from what o
+   reads at that moment (every variable through copyVariable, every dimension through copyDimension).  It owns no handle and
+   holds no reference to o's dimension or variable objects, so USING it later (reading every variable, len() of every
+   dimension, saving it) does not touch the handle table.  Derived files are numbered in creation order. *)
+Inductive hev := P (e : prim) | Derive (o : nat).
+
+Definition dstate := (state * list (option nat))%type.   (* handle state, and per derived file: the disk file whose data it holds
+                                                            (None: the derivation itself failed because o was not readable) *)
+Definition dstep (ds : dstate) (e : hev) : dstate :=
+  match e with
+  | P p => (impl_step (fst ds) p, snd ds)
+  | Derive o => (fst ds, snd ds ++ [read (fst ds) o])
+  end.
+Definition drun (h : list hev) : dstate := fold_left dstep h (st0, []).
+
+(* what using derived file d returns after the history: the data it was built from *)
+Definition use (ds : dstate) (d : nat) : option nat :=
+  match nth_error (snd ds) d with Some x => x | None => None end.
+
+Fixpoint prims_of (h : list hev) : list prim :=
+  match h with [] => [] | P p :: t => p :: prims_of t | Derive _ :: t => prims_of t end.
